@@ -73,6 +73,7 @@ def c02():
         j("c02_paths_all_tri_2", T, 200, "all 12 read paths, N=2"),
         j("c02_paths_all_other_2", T, 200, "all 12 read paths, second archetype sharing a component type"),
         j("c02_paths_all_bar_2", T, 200, "all 12 read paths, 2-column archetype of W1"),
+        j("c02_returned_components_tri_3", Q, 120, "the value returned by destroy through every Components accessor (fields, get/get_mut by type, into_tuple order, tuple round trip)"),
         j("c02_paths_keys_tri_3", Q, 250, "keys of every kind (typed, dynamic, direct, direct-dynamic) reach the designated entity's values through find/find_borrow/view/borrow/resolve"),
         j("c02_paths_keys_foo_3", T, 200, "same, 1 column"),
         j("c02_paths_keys_other_2", T, 200, "same, second archetype"),
@@ -347,6 +348,7 @@ def c13():
         j("c13_clone_create_on_orig_tri_2", T, 250, "growth of the original after cloning"),
         j("c13_clone_recycle_on_orig_other_2", T, 200, "2-column archetype"),
         j("c13_clone_foo_0", T, 40, "clone of a capacity-0 archetype"),
+        j("c13_clone_two_archetypes_2_3", Q, 150, "two populated archetypes: each archetype of the clone equals the same archetype of the original; with_capacity maps capacities per archetype"),
         J("c17_clear_arch_clone_2", Q, 250, what="feature events: the clone carries the same pending created/destroyed events; clearing one side does not clear the other",
           bounds=b, assumes=a, features=("events",)),
     ]
